@@ -253,8 +253,10 @@ func runC07(c *Ctx) {
 		}
 	}
 	c07EmitCoq(c, inputs, obs)
-	c.Rep.Cases = len(inputs)
-	c.Rep.Rule = "hostile byte strings: random bytes, every truncation of a valid CRL (DER) and every 5th of its PEM form, every TLV length field of three documents rewritten to 19 forms (0x80, 0x81..0x8F, 0x9F, negative/huge after narrowing), every tag byte swapped with 14 tags, PEM framing faults (missing newline/armour, long lines, 5000 armour lines, bad base64, NULs), deep nesting; each read by the real reader in a child process under ulimit -v with a watchdog; observables: outcome class and bytes allocated; distinct by content hash, non-trivial = not one of the three valid seeds"
+	intake := c07IntakeStage(c)
+	c.Rep.Extra["intake_cases"] = intake
+	c.Rep.Cases = len(inputs) + intake
+	c.Rep.Rule = "hostile byte strings: random bytes, every truncation of a valid CRL (DER) and every 5th of its PEM form, every TLV length field of three documents rewritten to 19 forms (0x80, 0x81..0x8F, 0x9F, negative/huge after narrowing), every tag byte swapped with 14 tags, PEM framing faults (missing newline/armour, long lines, 5000 armour lines, bad base64, NULs), deep nesting; each read by the real reader in a child process under ulimit -v with a watchdog; observables: outcome class and bytes allocated; distinct by content hash, non-trivial = not one of the three valid seeds; plus intake: documents without crlExtensions, with 17 malformed authorityKeyIdentifier values and 4 odd issuer names, signed by the CA or not, met by a real handshake and a forced refresh under verify and none (no panic, no hang)"
 }
 
 func hexTrunc(b []byte, n int) string {
